@@ -26,7 +26,7 @@ type gen struct {
 
 var allLeafKinds = []string{"base", "base", "plain", "retry", "fb", "retryfb", "func", "func", "func", "zst", "ovr", "val"}
 var payKinds = []string{"int", "str", "float", "map", "slice", "ptr", "struct", "nil", "nilptr", "nilmap", "nilslice", "errpay", "actempty"}
-var failKinds = []string{"sentinel", "wrapped", "custom", "wrapcustom", "ctxerr"}
+var failKinds = []string{"sentinel", "wrapped", "custom", "wrapcustom", "ctxerr", "hint"}
 var actionAlphabet = []string{"default", "", "a", "ab", "b", "Default"} // "Default" differs from the default action by case only
 
 func pick[T any](r *rand.Rand, xs []T) T { return xs[r.IntN(len(xs))] }
@@ -1340,6 +1340,10 @@ func (g *gen) anyNode(action string) *NodeSpec {
 			}
 		}
 		n.Visits[0].Post.Action = action
+		if hasPhase(n, 2) && g.chance(0.1) {
+			// post fails with a typed-nil error: a failure like any other (no success to report an action for)
+			n.Visits[0].Post.Fail = "typednil"
+		}
 		if hasPhase(n, 1) && g.chance(0.2) {
 			// the exec result happens to be an (empty) value of the library's Action type: just a payload
 			n.Visits[0].Exec = []Outcome{{Pay: "actempty"}}
@@ -1525,6 +1529,9 @@ func genC19(prop, tier string, r *rand.Rand) *Scn {
 		switch r.IntN(4) {
 		case 0:
 			s.Param, s.Val = "retries", 1+r.IntN(5)
+			if r.IntN(4) == 0 {
+				s.Param, s.Val, s.Form = "retries+", 1, "opt" // a relative user-written option: applied once
+			}
 		case 1:
 			s.Param, s.Val = "wait", pick(r, []int{0, 10, 20, 50})
 		case 2:
@@ -1645,6 +1652,13 @@ func canonical(sc *Scn) *Scn {
 		last := map[string]int{}
 		var order []string
 		for _, s := range n.Settings {
+			if s.Param == "retries+" { // a relative option: the canonical form names the value it arrives at
+				cur, ok := last["retries"]
+				if !ok {
+					cur = 1
+				}
+				s.Param, s.Val = "retries", cur+s.Val
+			}
 			if _, ok := last[s.Param]; !ok {
 				order = append(order, s.Param)
 			}
@@ -1808,6 +1822,36 @@ func cancelInPlainCallback(sc *Scn, r *rand.Rand) {
 }
 
 func genC10base(prop, tier string, r *rand.Rand) *Scn {
+	if r.IntN(12) == 0 {
+		// an embedded flow is run again, on a scratch store, from inside one of
+		// its own nodes (a recursive pipeline): the outer pass goes on with its
+		// parent's store, and what the scratch pass wrote stays in the scratch store
+		g := newGen(prop, tier, r)
+		g.failP = 0
+		g.kinds = []string{"base", "plain", "func", "retry"}
+		a, b, c := g.leaf(2), g.leaf(2), g.leaf(1)
+		for _, n := range []*NodeSpec{a, b, c} {
+			for v := range n.Visits {
+				n.Visits[v].Post = Outcome{Action: "default"}
+				n.Visits[v].Prep.Fail = ""
+				if len(n.Visits[v].Exec) > 0 {
+					n.Visits[v].Exec = []Outcome{{Pay: g.pay()}}
+				}
+			}
+		}
+		inner := &NodeSpec{ID: len(g.sc.Nodes), Kind: "flow", Start: a.ID, Conns: []Conn{{From: a.ID, Action: "default", To: b.ID}}}
+		g.sc.Nodes = append(g.sc.Nodes, inner)
+		outer := &NodeSpec{ID: len(g.sc.Nodes), Kind: "flow", Start: inner.ID, Conns: []Conn{{From: inner.ID, Action: "default", To: c.ID}}}
+		g.sc.Nodes = append(g.sc.Nodes, outer)
+		who := pick(r, []*NodeSpec{a, b})
+		if hasPhase(who, 1) && len(who.Visits[0].Exec) > 0 {
+			who.Visits[0].Exec[0].Nested = inner.ID + 1
+			who.Visits[0].Exec[0].NestedStore = r.IntN(3) > 0
+		}
+		g.sc.Root = outer.ID
+		g.sc.Runs = 1
+		return g.sc
+	}
 	if r.IntN(100) == 0 {
 		// "at any nesting depth": a chain of flows nested a hundred and more deep
 		// around two leaves (the inner one's action routes the innermost flow)
